@@ -240,6 +240,43 @@ def unit_foreign(model):
     return recs
 
 
+def unit_history(model):
+    """a call that was accepted must not make a later malformed call acceptable: the same list objects,
+    edited in place after an accepted call (a player slot now holds another model's rating / a plain int),
+    are rejected with TypeError/ValueError and nothing is modified"""
+    import importlib
+    from ..concrete import MODEL_MODULES
+    S = extract.Scratch(model)
+    game.stub_gauss_uninterpreted(S)
+    other = [m for m in extract.MODELS if m != model][0]
+    OR = getattr(importlib.import_module(MODEL_MODULES[other]), other + "Rating")
+    recs = []
+    for op in ("rate",) + PREDICTS:
+        for first in ("rate",) + PREDICTS:
+            if op != first and first != "rate" and op != "rate":
+                continue
+            for what in ("foreign-rating", "int"):
+                ctx = Ctx("U")
+
+                def run(ctx, op=op, first=first, what=what):
+                    m, _ = game.mk_model(ctx, S)
+                    teams = game.mk_teams(ctx, S, (1, 2))
+                    nm = f"C13/{model}/{op}/rejects-after-an-accepted-{first}-of-the-same-lists[{what}]"
+                    rp = {"kind": "c13_history", "model": model, "op": op, "first": first, "what": what, "other": other}
+                    out0 = call(getattr(m, first), teams)
+                    if out0[0] != "return":
+                        ctx.oblige(nm, False, meta={"fn": f"{model}.{first}", "replay": rp})
+                        return
+                    teams[1][0] = OR(ctx.real("f_mu"), ctx.real("f_sg")) if what == "foreign-rating" else 21
+                    snap = game.snapshot([[p for t in teams for p in t if hasattr(p, "__dict__")]], m)
+                    out = call(getattr(m, op), teams)
+                    ok = out[0] == "raise" and type(out[1]) in (TypeError, ValueError)
+                    ctx.oblige(nm, z3.And(z3.BoolVal(bool(ok)), game.heap_unchanged(snap)), meta={"fn": f"{model}.{op}", "replay": rp})
+                explore(ctx, run)
+                recs += settle(ctx.all_obls, mode="U")
+    return recs
+
+
 class PrefixDone(BaseException):
     """raised by the stubbed copy.deepcopy: the validation prefix of rate() has accepted the call"""
 
@@ -431,6 +468,7 @@ def units(tier):
         for sizes in ([(1, 1), (2, 1, 1)] if tier == "quick" else [(1, 1), (2, 1, 1), (1, 1, 1, 2)]):
             us.append(("unit_vectors", (m, sizes)))
         us.append(("unit_foreign", (m,)))
+        us.append(("unit_history", (m,)))
         us.append(("unit_unbounded", (m,)))
     return us
 
